@@ -10,10 +10,11 @@ SPECIES = [[8, 1, 1], [6, 8, 0]]  # padded batch: water + CO (sorted descending 
 SPECIES = [[8, 1, 1], [8, 6, 0]]
 
 
-def _mol():
-    nmol, molsize = len(SPECIES), len(SPECIES[0])
+def _mol(species=None):
+    species = species or SPECIES
+    nmol, molsize = len(species), len(species[0])
     coords = [[[1.3 * a + 0.1 * b, 0.4 * a * a - 0.2 * b, 0.3 * a + 0.7 * b] for a in range(molsize)] for b in range(nmol)]
-    mol, p, const = molecule(SPECIES, coords, "AM1")
+    mol, p, const = molecule(species, coords, "AM1")
     return mol, const, nmol, molsize
 
 
@@ -66,27 +67,41 @@ def ob_a(ob):
     expect_refuted(ob, Hf.a[0] == Etot.a[0] + sum(Eiso.a[a] for a in range(3)), [], "Hf with +Eiso", "lra")
 
 
-def replay_dipole(uhf):
-    """public API: reported dipole vs the dipole implied by the reported charges and density; shift law under translation"""
+def replay_dipole(uhf, species=None):
+    """public API: reported charges vs the reported density, reported dipole vs the dipole implied by the reported charges
+    and density, shift law under translation; single water (default) or a padded batch"""
     from seqm.seqm_functions.cal_par import dd_qq
     from seqm.seqm_functions.constants import a0, to_debye, debye_to_AU
 
-    sp = torch.tensor([[8, 1, 1]])
-    xyz = torch.tensor([[[0.1, 0.2, -0.1], [1.05, 0.3, 0.0], [-0.2, 1.1, 0.3]]])
+    species = species or [[8, 1, 1]]
+    geoms = {(8, 1, 1): [[0.1, 0.2, -0.1], [1.05, 0.3, 0.0], [-0.2, 1.1, 0.3]], (8, 6, 0): [[0.05, -0.1, 0.2], [1.18, 0.1, 0.3], [0.0, 0.0, 0.0]]}
+    xyz = torch.tensor([geoms[tuple(row)] for row in species])
+    sp = torch.tensor(species)
     kw = dict(UHF=True, charges=1, mult=2) if uhf else {}
+    tvec = torch.tensor([1.3, -0.7, 2.1])
     out = []
-    for t in (torch.zeros(3), torch.tensor([1.3, -0.7, 2.1])):
-        m, es = single_point(sp, xyz + t, "AM1", **kw)
+    worst_q = 0.0
+    for t in (torch.zeros(3), tvec):
+        m, es = single_point(sp, xyz + t * (sp > 0).unsqueeze(-1), "AM1", **kw)
         P = m.dm if m.dm.dim() == 3 else m.dm.sum(dim=1)
-        q = m.q[0]
-        dd, _ = dd_qq(m.const.qn[m.Z][m.Z > 2], m.parameters["zeta_s"][m.Z > 2], m.parameters["zeta_p"][m.Z > 2])
-        mu = (q.unsqueeze(1) * (xyz[0] + t)).sum(0)
-        mu = mu - 2 * dd[0] * a0 * P[0, 0, 1:4]
-        out.append((m.dipole[0].clone(), mu * to_debye * debye_to_AU, q.sum().item()))
+        pop = P.diagonal(dim1=1, dim2=2).reshape(P.shape[0], -1, 4).sum(-1)
+        worst_q = max(worst_q, (m.q - (m.const.tore[sp] - pop)).abs().max().item())
+        isX = m.Z > 2
+        dd, _ = dd_qq(m.const.qn[m.Z][isX], m.parameters["zeta_s"][isX], m.parameters["zeta_p"][isX])
+        k = 0
+        mus = []
+        for b, row in enumerate(species):
+            mu = (m.q[b].unsqueeze(1) * (xyz[b] + t) * (sp[b] > 0).unsqueeze(-1)).sum(0)
+            for a_, z in enumerate(row):
+                if z > 2:
+                    mu = mu - 2 * dd[k] * a0 * P[b, 4 * a_, 4 * a_ + 1 : 4 * a_ + 4]
+                    k += 1
+            mus.append(mu * to_debye * debye_to_AU)
+        out.append((m.dipole.clone(), torch.stack(mus), m.q.sum(1)))
     d_implied = max((a - b).abs().max().item() for a, b, _ in out)
-    shift = (out[1][0] - out[0][0]) - out[0][2] * torch.tensor([1.3, -0.7, 2.1]) * to_debye * debye_to_AU
-    print("replay dipole (%s): |reported - implied by q and P| = %.3e, |shift - charge*t| = %.3e" % ("UHF doublet cation" if uhf else "RHF", d_implied, shift.abs().max().item()))
-    return d_implied > 1e-8 or shift.abs().max().item() > 1e-8
+    shift = (out[1][0] - out[0][0]) - out[0][2].unsqueeze(1) * tvec * to_debye * debye_to_AU
+    print("replay dipole/charges (%s, species %s): |q - (Zval - diag P)| = %.3e, |reported - implied by q and P| = %.3e, |shift - charge*t| = %.3e" % ("UHF doublet cation" if uhf else "RHF", species, worst_q, d_implied, shift.abs().max().item()))
+    return worst_q > 1e-10 or d_implied > 1e-8 or shift.abs().max().item() > 1e-8
 
 
 @obligation(PID, "b", title="atomic charges follow from the density (sum = sum Z_val - tr P) and the dipole is the one implied by those charges and the density: point charges + sp hybridisation term; shifts by (total charge)*t under translation; RHF and UHF")
@@ -96,81 +111,96 @@ def ob_b(ob):
     from seqm.seqm_functions.cal_par import dd_qq
     from seqm.seqm_functions.constants import a0, to_debye, debye_to_AU
 
-    ob.encodes(Electronic_Structure.atomic_charges, calc_ground_dipole, calc_dipole_matrix)
-    ob.bound("padded batch [[O,H,H],[O,C,pad]]; all coordinates (incl. the padding slot) and the density matrices (physical block; alpha/beta independent for UHF) symbolic reals; dipole-separation parameters concrete (shipped AM1 rows)")
-    mol, const, nmol, molsize = _mol()
-    n = 4 * molsize
+    ob.encodes(Electronic_Structure.forward, Electronic_Structure.atomic_charges, calc_ground_dipole, calc_dipole_matrix)
+    ob.bound("padded batches [[O,H,H],[O,C,pad]] and [[O,C,pad],[O,H,H]] (padding before and after another molecule); all coordinates (incl. the padding slot) and the density matrices (physical block; alpha/beta independent for UHF) symbolic reals; dipole-separation parameters concrete (shipped AM1 rows)")
+    ob.assume("the SCF driver inside Electronic_Structure.forward is a recorder that hands back the symbolic density; the charge assembly that follows it is the real code")
     from .C06 import _sym_density
 
-    phys = []
-    for row in SPECIES:
-        idx = []
-        for a, z in enumerate(row):
-            idx += [4 * a + k for k in range(4)] if z > 1 else ([4 * a] if z == 1 else [])
-        phys.append(idx)
-    X = S.reals("x", (nmol, molsize, 3))
-    conv = S.rv(to_debye) * S.rv(debye_to_AU)  # the code multiplies by the two factors one after the other
-    tore = const.tore
-    isX = mol.Z > 2
-    with symbolic_factories():
-        # the same (partly symbolic: sqrt(3) is an auxiliary variable) dipole-separation terms the code builds
-        dd, _ = dd_qq(const.qn[mol.Z][isX], mol.parameters["zeta_s"][isX], mol.parameters["zeta_p"][isX])
-        dd *= a0
-    dd = list(dd.a)
-    heavy_atoms = [(b, a) for b in range(nmol) for a, z in enumerate(SPECIES[b]) if z > 2]
-    ddmap = dict(zip(heavy_atoms, dd))
-    for uhf in (False, True):
-        if uhf:
-            Pa, Pb = _sym_density("Pa", nmol, n, phys), _sym_density("Pb", nmol, n, phys)
-            P = SymTensor(np.stack([Pa, Pb], axis=1))
-            Ptot = Pa + Pb
-        else:
-            Ptot = _sym_density("P", nmol, n, phys)
-            P = SymTensor(Ptot.copy())
-        ns = types.SimpleNamespace(rij=mol.rij, parameters=mol.parameters, const=const, Z=mol.Z, species=mol.species, maskd=mol.maskd, nmol=nmol, molsize=molsize, coordinates=SymTensor(X.copy()), dipole=None)
+    for species in (SPECIES, SPECIES[::-1]):
+        mol, const, nmol, molsize = _mol(species)
+        n = 4 * molsize
+        phys = []
+        for row in species:
+            idx = []
+            for a, z in enumerate(row):
+                idx += [4 * a + k for k in range(4)] if z > 1 else ([4 * a] if z == 1 else [])
+            phys.append(idx)
+        X = S.reals("x", (nmol, molsize, 3))
+        conv = S.rv(to_debye) * S.rv(debye_to_AU)  # the code multiplies by the two factors one after the other
+        tore = const.tore
+        isX = mol.Z > 2
         with symbolic_factories():
-            calc_ground_dipole(ns, P)
+            # the same (partly symbolic: sqrt(3) is an auxiliary variable) dipole-separation terms the code builds
+            dd, _ = dd_qq(const.qn[mol.Z][isX], mol.parameters["zeta_s"][isX], mol.parameters["zeta_p"][isX])
+            dd *= a0
+        dd = list(dd.a)
+        heavy_atoms = [(b, a) for b in range(nmol) for a, z in enumerate(species[b]) if z > 2]
+        ddmap = dict(zip(heavy_atoms, dd))
+        for uhf in (False, True):
             if uhf:
-                q = S.const(tore[mol.species]) - Electronic_Structure.atomic_charges(P[:, 0])
-                q = q - Electronic_Structure.atomic_charges(P[:, 1])
+                Pa, Pb = _sym_density("Pa", nmol, n, phys), _sym_density("Pb", nmol, n, phys)
+                P = SymTensor(np.stack([Pa, Pb], axis=1))
+                Ptot = Pa + Pb
             else:
-                q = S.const(tore[mol.species]) - Electronic_Structure.atomic_charges(P)
-        for b in range(nmol):
-            # charges
-            for a in range(molsize):
-                spec_q = S.rv(tore[SPECIES[b][a]].item()) - sum(Ptot[b, 4 * a + k, 4 * a + k] for k in range(4))
-                v, m = smt.prove(q.a[b, a] == spec_q, [], "b:%s charge (%d,%d)" % ("UHF" if uhf else "RHF", b, a), "lra", 30)
-                ob.verdict(v, "b:charge")
-            # dipole implied by charges and density
-            for c in range(3):
-                mu = sum(q.a[b, a] * X[b, a, c] for a in range(molsize) if SPECIES[b][a] > 0)
-                for (bb, a) in heavy_atoms:
-                    if bb == b:
-                        mu = mu - 2 * ddmap[(bb, a)] * Ptot[b, 4 * a, 4 * a + 1 + c]
-                lab = "b:%s dipole mol %d comp %d" % ("UHF" if uhf else "RHF", b, c)
-                v, m = smt.prove(ns.dipole.a[b, c] == mu * conv, [], lab, "auto", 60)
-                if v == "sat":
-                    if replay_dipole(uhf):
-                        ob.violation("%s: reported dipole is not the one implied by the reported charges and density (molecule %d, component %d)" % ("UHF" if uhf else "RHF", b, c), {"module": "harness.C14", "func": "replay_dipole", "args": {"uhf": uhf}})
-                    else:
-                        raise HarnessError("dipole counterexample did not reproduce (%s)" % lab)
+                Ptot = _sym_density("P", nmol, n, phys)
+                P = SymTensor(Ptot.copy())
+            ns = types.SimpleNamespace(rij=mol.rij, parameters=mol.parameters, const=const, Z=mol.Z, species=mol.species, maskd=mol.maskd, nmol=nmol, molsize=molsize, coordinates=SymTensor(X.copy()), dipole=None, method="AM1")
+            es = types.SimpleNamespace(atomic_charges=Electronic_Structure.atomic_charges, conservative_force=lambda m_, **k: (None, P, None, None, None, None, None, None, None, None, None))
+            with symbolic_factories():
+                calc_ground_dipole(ns, P)
+                Electronic_Structure.forward(es, ns)
+            q = ns.q
+            tagc = "%s %s" % ("UHF" if uhf else "RHF", species)
+            stop = False
+            for b in range(nmol):
+                # charges
+                for a in range(molsize):
+                    spec_q = S.rv(tore[species[b][a]].item()) - sum(Ptot[b, 4 * a + k, 4 * a + k] for k in range(4))
+                    lab = "b:%s charge (%d,%d)" % (tagc, b, a)
+                    v, m = smt.prove(q.a[b, a] == spec_q, [], lab, "lra", 30)
+                    if v == "sat":
+                        if replay_dipole(uhf, species):
+                            ob.violation("%s: reported atomic charge of atom %d of molecule %d is not Z_val minus the population of the reported (alpha+beta) density" % (tagc, a, b), {"module": "harness.C14", "func": "replay_dipole", "args": {"uhf": uhf, "species": species}})
+                            stop = True
+                            break
+                        raise HarnessError("charge counterexample did not reproduce (%s)" % lab)
+                    ob.verdict(v, "b:charge")
+                if stop:
                     break
-                ob.verdict(v, lab)
-                # the padding slot's coordinates must not enter
-                pads = [X[b, a, k] for a in range(molsize) if SPECIES[b][a] == 0 for k in range(3)]
-                expr = z3.simplify(ns.dipole.a[b, c])
-                if {str(p_) for p_ in pads} & {str(vv) for vv in S.free_vars(expr)}:
-                    alt = [z3.Real(str(p_) + "_alt") for p_ in pads]
-                    v2, m2 = smt.prove(expr == z3.substitute(expr, *zip(pads, alt)), [], lab + " padding independence", "auto", 30)
-                    if v2 == "sat":
-                        if replay_padding_dipole():
-                            ob.violation("dipole of molecule %d depends on the coordinates stored in a padding slot" % b, {"module": "harness.C14", "func": "replay_padding_dipole", "args": {}})
+                # dipole implied by charges and density
+                for c in range(3):
+                    mu = sum(q.a[b, a] * X[b, a, c] for a in range(molsize) if species[b][a] > 0)
+                    for (bb, a) in heavy_atoms:
+                        if bb == b:
+                            mu = mu - 2 * ddmap[(bb, a)] * Ptot[b, 4 * a, 4 * a + 1 + c]
+                    lab = "b:%s dipole mol %d comp %d" % (tagc, b, c)
+                    v, m = smt.prove(ns.dipole.a[b, c] == mu * conv, [], lab, "auto", 60)
+                    if v == "sat":
+                        if replay_dipole(uhf, species):
+                            ob.violation("%s: reported dipole is not the one implied by the reported charges and density (molecule %d, component %d)" % (tagc, b, c), {"module": "harness.C14", "func": "replay_dipole", "args": {"uhf": uhf, "species": species}})
+                            stop = True
+                            break
+                        raise HarnessError("dipole counterexample did not reproduce (%s)" % lab)
+                    ob.verdict(v, lab)
+                    # the padding slot's coordinates must not enter
+                    pads = [X[b, a, k] for a in range(molsize) if species[b][a] == 0 for k in range(3)]
+                    expr = z3.simplify(ns.dipole.a[b, c])
+                    if {str(p_) for p_ in pads} & {str(vv) for vv in S.free_vars(expr)}:
+                        alt = [z3.Real(str(p_) + "_alt") for p_ in pads]
+                        v2, m2 = smt.prove(expr == z3.substitute(expr, *zip(pads, alt)), [], lab + " padding independence", "auto", 30)
+                        if v2 == "sat":
+                            if replay_padding_dipole():
+                                ob.violation("dipole of molecule %d depends on the coordinates stored in a padding slot" % b, {"module": "harness.C14", "func": "replay_padding_dipole", "args": {}})
+                            else:
+                                raise HarnessError("padding-coordinate dependence of the dipole did not reproduce")
                         else:
-                            raise HarnessError("padding-coordinate dependence of the dipole did not reproduce")
+                            ob.verdict(v2, "b:padding coordinates do not enter")
                     else:
-                        ob.verdict(v2, "b:padding coordinates do not enter")
-                else:
-                    ob.discharged("b:padding coordinates do not enter")
+                        ob.discharged("b:padding coordinates do not enter")
+                if stop:
+                    break
+            if stop:
+                return
     expect_refuted(ob, ns.dipole.a[0, 0] == sum(q.a[0, a] * X[0, a, 0] for a in range(3)) * conv, [], "dipole without the hybridisation term")
 
 
